@@ -46,6 +46,8 @@ func conc(gor, calls int, f func(g, k int) string) [][]string {
 	return out
 }
 
+var c17round int
+
 func runC17(c *Ctx) {
 	r := NewRng(c.Seed, "c17")
 	gor := c.Pick(8, 16)
@@ -123,6 +125,11 @@ func runC17(c *Ctx) {
 	})
 	scenario("type1.issuer:Evaluate+Verify+TokenKeyID", func() func(g, k int) (string, string) {
 		key := oprfKey(oprf.SuiteP384, r.Bytes(16))
+		// every other round the operator has published the key first (Public() was called on the very object the issuer gets)
+		c17round++
+		if c17round%2 == 0 {
+			key.Public()
+		}
 		// the reference key id from an independent copy of the key, so that the shared one is untouched before the goroutines start
 		pkEnc, _ := oprfKey(oprf.SuiteP384, nil).Public().MarshalBinary()
 		_ = pkEnc
@@ -226,12 +233,27 @@ func runC17(c *Ctx) {
 		// the adapters re-key the crypto/rand replacement; use plain evaluation here
 		i1, i2 := a1.i1, a2.i2
 		a1.eval = func(q tokens.TokenRequest) ([]byte, error) { return i1.Evaluate(q.(*type1.BasicPrivateTokenRequest)) }
-		bi := batched.NewBasicBatchedIssuer(plainIssuer{a1}, plainIssuer{a2})
+		// key rotation: two issuers per token type; calls address either key
+		b1 := newAd1(c.Seed, "c17-1b", r.Bytes(8))
+		for b1.keyID[31] == a1.keyID[31] {
+			b1 = newAd1(c.Seed, "c17-1b", r.Bytes(8))
+		}
+		j1 := b1.i1
+		b1.eval = func(q tokens.TokenRequest) ([]byte, error) { return j1.Evaluate(q.(*type1.BasicPrivateTokenRequest)) }
+		bi := batched.NewBasicBatchedIssuer(plainIssuer{a1}, plainIssuer{a2}, plainIssuer{b1})
 		_ = i2
 		return func(g, k int) (string, string) {
-			st1, _ := type1.NewBasicPrivateClient().CreateTokenRequest(msg(g, k), bytes.Repeat([]byte{1}, 32), a1.keyID, i1.TokenKey())
+			useA, useI := a1, i1
+			if (g+k)%2 == 1 {
+				useA, useI = b1, j1
+			}
+			st1, _ := type1.NewBasicPrivateClient().CreateTokenRequest(msg(g, k), bytes.Repeat([]byte{1}, 32), useA.keyID, useI.TokenKey())
 			st2, _ := type2.NewBasicPublicClient().CreateTokenRequest(msg(g, k), bytes.Repeat([]byte{2}, 32), a2.keyID, i2.TokenKey())
-			bad := &type1.BasicPrivateTokenRequest{TokenKeyID: st1.Request().TokenKeyID ^ 1, BlindedReq: st1.Request().BlindedReq}
+			badID := st1.Request().TokenKeyID ^ 1
+			for badID == a1.keyID[31] || badID == b1.keyID[31] {
+				badID++
+			}
+			bad := &type1.BasicPrivateTokenRequest{TokenKeyID: badID, BlindedReq: st1.Request().BlindedReq}
 			br, _ := batched.NewBasicClient().CreateTokenRequest([]tokens.TokenRequestWithDetails{st1.Request(), bad, st2.Request()})
 			wire := &batched.BatchedTokenRequest{}
 			wire.Unmarshal(br.Marshal())
